@@ -24,7 +24,7 @@
 (*     from reality.  Drift is not a verdict about the code; it says that  *)
 (*     the exhaustive result on the model does not transfer to this step.  *)
 (***************************************************************************)
-EXTENDS Cfdp0, Json, IOUtils
+EXTENDS Cfdp0, Snap, Json, IOUtils
 
 Rec == ndJsonDeserialize(IOEnv.TRACE)
 
@@ -37,39 +37,10 @@ vars == <<l, rs, o, m>>
 
 IsReset(x) == x.a = "Reset"
 
-\* ------------------------------------------------------------ snapshots -> model records
-Cnt(j) == [run |-> j.run, cnt |-> j.cnt, occ |-> j.occ, el |-> j.el]
-
-SOfSnap(j) ==
-  IF ~j.alive THEN SDead
-  ELSE [ alive |-> TRUE, st |-> j.st, txs |-> j.txs, status |-> j.status, cond |-> j.cond,
-         deliv |-> j.deliv, fstat |-> j.fstat, naks |-> j.naks, progress |-> j.progress, rfs |-> j.rfs,
-         eof |-> [set |-> j.eof.set, cond |-> j.eof.cond, loc |-> j.eof.loc, flag |-> j.eof.flag,
-                  size |-> j.eof.size, ckok |-> j.eof.ckok],
-         acked |-> j.acked, ack |-> j.ack, ackcond |-> j.ackcond, ackstatus |-> j.ackstatus, prompt |-> j.prompt,
-         eofInd |-> j.eofInd, cursor |-> j.cursor, tAck |-> Cnt(j.tAck), tInact |-> Cnt(j.tInact) ]
-
-ROfSnap(j) ==
-  IF ~j.alive THEN RDead
-  ELSE [ alive |-> TRUE, st |-> j.st, txs |-> j.txs, status |-> j.status, cond |-> j.cond,
-         deliv |-> j.deliv, fstat |-> j.fstat, resp |-> j.resp, meta |-> j.meta, closure |-> j.closure,
-         segs |-> j.segs, rsize |-> j.rsize, eofrx |-> j.eofrx, fsize |-> j.fsize,
-         ckset |-> j.ckset, ckok |-> j.ckok, ack |-> j.ack, ackcond |-> j.ackcond, ackstatus |-> j.ackstatus,
-         fopen |-> j.fopen,
-         fin |-> [set |-> j.fin.set, cond |-> j.fin.cond, deliv |-> j.fin.deliv, fstat |-> j.fin.fstat,
-                  resp |-> j.fin.resp, loc |-> j.fin.loc, flag |-> j.fin.flag],
-         prompt |-> j.prompt, naks |-> j.naks, nakMark |-> j.nakMark,
-         delayed |-> [i \in 1 .. Len(j.delayed) |-> [c |-> Cnt(j.delayed[i].c), a |-> j.delayed[i].a, b |-> j.delayed[i].b]],
-         tAck |-> Cnt(j.tAck), tInact |-> Cnt(j.tInact), tNak |-> Cnt(j.tNak) ]
-
 \* the loop guards are part of what is compared
 SGuards(s, C) == [until |-> SUntil(s, C), can |-> SCan(s)]
 RGuards(r, C) == [until |-> RUntil(r, C), can |-> RCan(r)]
 SnapGuards(j) == IF j.alive THEN [until |-> j.until, can |-> j.can] ELSE [until |-> Never, can |-> FALSE]
-
-Strip(p) == [f \in (DOMAIN p) \ {"bytes"} |-> p[f]]
-StripAll(q) == [i \in 1 .. Len(q) |-> Strip(q[i])]
-IndsOfE(q, e) == SelectSeq(q, LAMBDA x : x.e = e)
 
 \* ------------------------------------------------------------ the model's prediction for one line
 Unchanged(mm, res) == [s |-> mm.s, r |-> mm.r, w |-> mm.w, out |-> <<>>, ind |-> <<>>, res |-> res]
